@@ -177,12 +177,13 @@ class Spans:
         return s
 
     def __iadd__(self, other):
-        for (start, length) in other:
+        # (a list: other may be this very object)
+        for (start, length) in list(other):
             self.add(start, length)
         return self
 
     def __isub__(self, other):
-        for (start, length) in other:
+        for (start, length) in list(other):
             self.remove(start, length)
         return self
 
